@@ -3348,3 +3348,22 @@ pub mod verif {
         });
     }
 }
+
+//------------ verification hooks (C12) ---------------------------------------
+
+#[cfg(feature = "verif-hooks")]
+impl Manager {
+    /// Stores a link report with `n` stand-alone components, the way the
+    /// coordinator task does once every component has reported its links
+    /// (add-only; used to serve `/status/graph` from a non-empty graph).
+    pub fn verif_set_link_report(&self, n: usize) {
+        let mut report = LinkReport::new();
+        for i in 0..n {
+            let upstream = UpstreamLinkReport::new();
+            upstream.declare_source();
+            report.add_link(format!("unit{i}"), upstream);
+        }
+        self.graph_svg_data
+            .swap(Arc::new((Instant::now(), report)));
+    }
+}
